@@ -361,7 +361,7 @@ class C14(Check):
             return tbl >> pdt.join(tbl >> pdt.filter(True), [], "inner", suffix="_zz")
         if which == "join_same_origin_via_union":
             # the other operand entered the left one as the *right* operand of a union
-            u2 = pdt.Table(tbl >> pdt.export(pdt.Polars()), name="copy") if kind_of(tbl) == "polars" else tbl >> pdt.alias("copy")
+            u2 = tbl >> pdt.alias("copy")
             return tbl >> pdt.union(u2) >> pdt.join(u2, [], "inner", suffix="_zz")
         if which == "filter_null":
             pred = pdt.lit(None) if off.get("null_variant", 0) == 0 else pdt.when(b.expr(["fn", "is_not_null", [anyc], {}])).then(None)
